@@ -16,7 +16,10 @@ text = '\n'.join(out)
 open(os.path.join(ROOT, 'seeded', 'README.md'), 'w').write(
     '# Seeded property-breaking changes\n\nEach directory holds `patch.diff` (never committed to /repo), `demo.py` (fails with the change, passes without) '
     'and `meta.json`. Produced by independent sub-agents that saw only the property text and a scratch worktree. '
-    'Evaluation: `tools/eval_seed.sh` (confirm in the scratch worktree, then `git -C /repo apply`, run every quick check, `git -C /repo checkout -- .`).\n\n' + text + '\n')
+    'Evaluation: `tools/eval_seed.sh` (confirm in the scratch worktree, then `git -C /repo apply`, run the quick checks, `git -C /repo checkout -- .`). '
+    'Waves 1-3 were run against every quick check; most of wave 4 against the property\'s own check plus a fixed subset (`checks_run` in meta.json) to fit the time left, so "reported by" is a lower bound there. '
+    '`applies_to` in meta.json is the newest /repo commit the patch applies to (later `fix:` commits touch some of the same lines). '
+    'A note says which check missed the change at first and what was strengthened.\n\n' + text + '\n')
 # compact matrix for DESIGN.md section 11
 comp = ['| seed | where (from the author\'s summary) | reported by (quick tier) | history |', '|---|---|---|---|']
 for r in rows:
